@@ -29,7 +29,7 @@ enum Prop { P_C01 = 1, P_C02 = 2, P_C07 = 7, P_C08 = 8, P_C09 = 9, P_C10 = 10, P
 
 struct Counters {
     int arrays, nontrivial, searches, present, absent, multiseg, multilevel, dups, extreme, builds_chunked, route_steps,
-        routes_binary, family_arrays, exceptions, internal_checks, far_queries;
+        routes_binary, family_arrays, exceptions, cfg_limit, internal_checks, far_queries;
     explicit Counters(Run &r) {
         arrays = r.counter("arrays_built"); nontrivial = r.counter("arrays_with_2plus_distinct_keys");
         searches = r.counter("searches_checked"); present = r.counter("present_key_queries"); absent = r.counter("absent_key_queries");
@@ -37,7 +37,7 @@ struct Counters {
         dups = r.counter("arrays_with_duplicates"); extreme = r.counter("arrays_touching_lowest_or_max_minus_1");
         builds_chunked = r.counter("chunked_builds"); route_steps = r.counter("routing_steps_checked");
         routes_binary = r.counter("routing_steps_binary_search_path"); family_arrays = r.counter("large_family_arrays");
-        exceptions = r.counter("unexpected_exceptions"); internal_checks = r.counter("internal_structure_checks");
+        exceptions = r.counter("unexpected_exceptions"); cfg_limit = r.counter("inputs_with_more_segments_than_a_fixed_width_bucket_table_can_address"); internal_checks = r.counter("internal_structure_checks");
         far_queries = r.counter("far_queries_2p63_or_more_from_nearest_key");
     }
 };
@@ -53,6 +53,8 @@ template<typename K, size_t E, size_t R, typename F> struct is_compressed<pgm::C
 };
 template<typename T> struct is_bucketing : std::false_type {};
 template<typename K, size_t E, size_t S, uint8_t B, typename F> struct is_bucketing<pgm::BucketingPGMIndex<K, E, S, B, F>> : std::true_type {};
+template<typename T> struct bucket_cell_bits { static constexpr size_t value = 0; using base = void; };
+template<typename K, size_t E, size_t S, uint8_t B, typename F> struct bucket_cell_bits<pgm::BucketingPGMIndex<K, E, S, B, F>> { static constexpr size_t value = B; using base = pgm::PGMIndex<K, E, 0, F>; };
 template<typename T> struct is_ef : std::false_type {};
 template<typename K, size_t E, typename F> struct is_ef<pgm::EliasFanoPGMIndex<K, E, F>> : std::true_type {};
 
@@ -214,6 +216,17 @@ struct Explorer {
         Index *idxp = nullptr;
         try { idxp = new Index(data.begin(), data.end()); }
         catch (const std::exception &e) {
+            // A BucketingPGMIndex with a fixed cell width (TopLevelBitSize > 0) cannot address more than 2^TopLevelBitSize segments and
+            // says so with std::invalid_argument: that input is outside this configuration, provided the plain one-level index over
+            // the same data really has that many segments (counted independently here).
+            if constexpr (bucket_cell_bits<Index>::value > 0) {
+                if (std::string(e.what()).rfind("TopLevelBitSize must be >=", 0) == 0) {
+                    typename bucket_cell_bits<Index>::base plain(data.begin(), data.end());
+                    size_t m = plain.segments.size();
+                    size_t need = m == 0 ? 0 : 64 - size_t(__builtin_clzll(m));
+                    if (need > bucket_cell_bits<Index>::value) { run.add(cn.cfg_limit); return; }
+                }
+            }
             run.add(cn.exceptions);
             run.violation(case_of(data_desc, ""), std::string("construction over valid data threw: ") + e.what());
             return;
